@@ -78,7 +78,9 @@ class Report:
     def floor(self, rule, n_min, what=''):
         n = len(self.instances.get(rule, []))
         if n < n_min:
-            raise Broken('rule %s matched %d instances, floor is %d (%s) - anchor lost?' % (rule, n, n_min, what))
+            # recorded, not raised: a run that found violations has a verdict; only a run that would otherwise pass is vacuous
+            self.floor_failures = getattr(self, 'floor_failures', []) + [
+                'rule %s matched %d instances, floor is %d (%s) - anchor lost?' % (rule, n, n_min, what)]
 
 
 def load_known():
@@ -151,7 +153,11 @@ def finish(rep, tier, t0, level, explanation, assumptions, rule_text, samples, e
         'coverage': cov, 'assumptions': assumptions, 'wall_s': round(time.time() - t0, 2), 'violations': n_viol,
     }
     json.dump(ev, open(os.path.join(EVID, rep.pid + '.json'), 'w'), indent=1)
+    if rc == 0 and getattr(rep, 'floor_failures', None):
+        for f in rep.floor_failures:
+            print('CHECK-BROKEN property=%s: %s' % (rep.pid, f))
+        rc = 2
     print('%s: %s  (%d rule instances over %d rules, %d functions, %d programs; %d known findings; %.1fs)' % (
-        rep.pid, 'VIOLATED' if rc else 'ok', evaluations, len(rep.instances), len(rep.functions), len(rep.programs), n_known,
+        rep.pid, 'VIOLATED' if rc == 1 else ('BROKEN' if rc else 'ok'), evaluations, len(rep.instances), len(rep.functions), len(rep.programs), n_known,
         time.time() - t0))
     return rc
